@@ -37,10 +37,37 @@ ASSUMPTIONS = [
     'OP_IF is never closed (`open_program` of Proofs/EvalIfOpen.v: structured prefix, then a conditional without its '
     'OP_ENDIF) are Invalid on both sides (agree_if_missing_endif, missing_endif_never_valid)',
 ]
+ASSUMPTIONS += [
+    'environment (section 8 of Properties/C19.v): csv_agrees_all_env / cltv_agrees_all_env hold for every stack and every '
+    'value of nSequence / nLockTime / version (present or absent) under consensus flags (MINIMALDATA off); env_data values '
+    'are the unsigned 32-bit readings of the transaction fields (what Transaction.version_int etc. hand over): Core casts '
+    'the version to uint32_t, the identity there (version_cast_is_identity_on_uint32); a SIGNED version is outside the '
+    'domain (csv_signed_version_refuted, proposed known class csv_signed_version; such cases are generated only once '
+    'the class is recorded)',
+    'sessions (section 9): Model/EvalSession.v carries, per Script object, commands / message / env_data / stack, and no '
+    'process-wide state; evaluation_session_is_map is about that model.  Its tie to the source is (a) the session '
+    'requests of every run (objects re-evaluated, the same signature / key under other messages, the same script under '
+    'other env_data, interleaved work, each session in a fresh fork of the just-imported library) and (b) Gen/GenC19.v, '
+    'the state footprint read from the AST of scripts.py / keys.py (interpreter_touches_no_module_state, '
+    'interpreter_attribute_writes_are_frozen, interpreter_self_reads_are_frozen): state hidden elsewhere (C extension, '
+    'other modules) is covered by (a) only',
+    'the property-level oracle verifies ECDSA itself (secp256k1 written from SEC 1/2 in harness/props/c19.py) over the '
+    'message in force for each evaluation; evaluate(message=None) / evaluate(env_data=None) mean "the value given last '
+    'to this object, else the constructor\'s" as the docstrings of Script.__init__ / Script.evaluate say; an evaluation '
+    'in which a recorded deviation class fires is compared with the model and with equal evaluations of the same session '
+    'only; the class checkmultisig_conventions no longer covers the bare form <> sig.. m key.. n OP_CHECKMULTISIG as last '
+    'command (ms_plain): there the verdict is judged against consensus',
+]
+ESCALATE_CAP = 30000
 RULE = ('exhaustive: every opcode 0x00..0xff x every stack of <=2 (quick) / <=3 (thorough) items over the 14-item set '
         'of DESIGN.md C19; env sweeps for CLTV/CSV over threshold boundaries; CHECKSIG/CHECKMULTISIG over validity '
         'patterns with real signatures; seeded random programs (length <=30) with nested conditionals; standard spends; '
-        'non-trivial = the library neither refuses the opcode (ScriptError) nor lacks a name for it; distinct by request')
+        'non-trivial = the library neither refuses the opcode (ScriptError) nor lacks a name for it; distinct by request; '
+        'BIP112 / BIP65 bit structure: operand x nSequence over (bit 31) x (bit 22) x (bits 16-21, 23-30 set / clear) x '
+        '(low 16 bits 0, v-1, v, v+1, 0xffff) x version {absent, 0, 1, 2, 3, 2^31-1, 2^31, 2^32-1}, operand encodings '
+        '(padded, 5 and 6 bytes, negative, negative zero, empty), CLTV operand x nLockTime x nSequence around 500000000, '
+        '2^31, 2^32, 2^39; sessions (several constructor / evaluate calls in one process): signature replay under other '
+        'messages in both orders, bare multisig, locks under changing env_data, objects evaluated repeatedly, mixtures')
 EXHAUSTIVE = True
 
 # ---------------------------------------------------------------- fixed universe (real signatures, see c19_impl.MESSAGE)
@@ -308,6 +335,34 @@ def core_checksig(sig, pk, trig, msg):
     return sig_ok(msg, sig, pk)
 
 
+def ms_plain(n, idx, cmds, st, vf, env):
+    """the one use of OP_CHECKMULTISIG on which the library's conventions (class checkmultisig_conventions: VERIFY +
+    push of env_data['redeemscript'], no dummy required, raises on 0-of-n / undecodable keys / empty signatures, no
+    bounds) cannot show: the bare form  <> sig.. m key.. n OP_CHECKMULTISIG  as the LAST command, outside any
+    conditional, minimal 1 <= m <= n <= 20, decodable keys, BIP66 signatures, an empty dummy, a non-empty
+    redeemscript in env_data (it takes the place of the result and is popped by the final truth test).  There the
+    verdict and the remaining stack are consensus's, and the class does not excuse anything."""
+    if n != 174 or idx != len(cmds) - 1 or vf:
+        return False
+    rs = env.get('redeemscript')
+    if not isinstance(rs, bytes) or rs == b'':
+        return False
+    if len(st[-1]) > 4 or not minimal(st[-1]):
+        return False
+    nk = num(st[-1])
+    if not (1 <= nk <= 20) or len(st) < nk + 2:
+        return False
+    mb = st[-nk - 2]
+    if len(mb) > 4 or not minimal(mb):
+        return False
+    ns = num(mb)
+    if not (1 <= ns <= nk) or len(st) < nk + ns + 3:
+        return False
+    keys = st[-nk - 1:-1]
+    sigs = st[-nk - ns - 2:-nk - 2]
+    return st[-nk - ns - 3] == b'' and all(key_point(k) is not None for k in keys) and all(der_ok(x) for x in sigs)
+
+
 def core_eval(cmds, env, limits=True, msg=MESSAGE):
     """-> (verdict, stack bottom..top, set of deviation triggers that fired while Core executed the script);
     msg is the digest the signatures of THIS evaluation are checked against (real ECDSA, sig_ok)"""
@@ -315,7 +370,7 @@ def core_eval(cmds, env, limits=True, msg=MESSAGE):
     alt = []
     nops = 0
     try:
-        for c in cmds:
+        for idx, c in enumerate(cmds):
             fexec = all(vf)
             if isinstance(c, bytes):
                 if len(c) > 520:
@@ -557,7 +612,7 @@ def core_eval(cmds, env, limits=True, msg=MESSAGE):
                         raise Fail()
                     st.pop()
             elif n in (174, 175):
-                if st:
+                if st and not ms_plain(n, idx, cmds, st, vf, env):
                     trig.add('checkmultisig_conventions')
                 i = 1
                 if len(st) < i:
@@ -1258,6 +1313,29 @@ def gen_sessions(rng, big):
         t_ok = [SG[d1, m1], SKEYS[d1], 173, SG[d2, m1], SKEYS[d2], 172]
         s = Ses()
         s.fresh(t_ok, m1); s.fresh(t, m1); s.fresh(t, m2); s.fresh(t_ok, m2); s.fresh(t_ok, m1)
+        cs.append(mkses('ses_replay', s.steps))
+    # bare multisig (the form in which the library's conventions cannot show, see ms_plain): all signatures for one message
+    for rep in range(16 * mult):
+        nk = rng.choice([1, 2, 2, 3, 3])
+        ks = rng.sample(list(SKEYS), nk)
+        ns = rng.randrange(1, nk + 1)
+        signers = sorted(rng.sample(range(nk), ns))
+        m1, m2 = rng.sample(MSGS, 2)
+        t = ms_script([SG[ks[i], m1] for i in signers], ns, [SKEYS[k] for k in ks])
+        s = Ses()
+        pat = rep % 4
+        if pat == 0:
+            s.fresh(t, m1, ENV_FULL); s.fresh(t, m2, ENV_FULL); s.fresh(t, m1, ENV_FULL)
+        elif pat == 1:
+            s.fresh(t, m2, ENV_FULL); s.fresh(t, m1, ENV_FULL); s.fresh(t, m2, ENV_FULL)
+        elif pat == 2:
+            o = s.new(t, None, ENV_FULL)
+            s.ev(o, m1); s.ev(o, m2); noise(s); s.ev(o, m1)
+        else:
+            # one signature of the set replaced by the same key's signature for the other message
+            j = rng.choice(signers)
+            t2 = ms_script([SG[ks[i], m2 if i == j else m1] for i in signers], ns, [SKEYS[k] for k in ks])
+            s.fresh(t, m1, ENV_FULL); s.fresh(t2, m1, ENV_FULL); s.fresh(t2, m2, ENV_FULL); s.fresh(t, m2, ENV_FULL)
         cs.append(mkses('ses_replay', s.steps))
     # --- B: the same script under different env_data (relative / absolute locks), same object and fresh objects
     csv_envs = [dict(ENV_FULL, sequence=sq, version=v) for sq in (5, 10, 11, (1 << 16) | 5, TYP | 10, DIS | 11, 0xffffffff)
